@@ -122,3 +122,47 @@ type ReadCloser struct {
 }
 
 func (r *ReadCloser) Close() error { r.Closed++; return nil }
+
+// RepeatSource lazily yields Prefix, then Unit repeated Count times, then Suffix.
+type RepeatSource struct {
+	Prefix, Unit, Suffix []byte
+	Count                int
+	pos                  int64
+	Calls                int
+}
+
+func (r *RepeatSource) total() int64 {
+	return int64(len(r.Prefix)) + int64(len(r.Unit))*int64(r.Count) + int64(len(r.Suffix))
+}
+
+func (r *RepeatSource) Read(p []byte) (int, error) {
+	r.Calls++
+	if len(p) == 0 {
+		return 0, nil
+	}
+	if r.pos >= r.total() {
+		return 0, io.EOF
+	}
+	n := 0
+	for n < len(p) && r.pos < r.total() {
+		switch {
+		case r.pos < int64(len(r.Prefix)):
+			c := copy(p[n:], r.Prefix[r.pos:])
+			n += c
+			r.pos += int64(c)
+		case r.pos < int64(len(r.Prefix))+int64(len(r.Unit))*int64(r.Count):
+			off := (r.pos - int64(len(r.Prefix))) % int64(len(r.Unit))
+			c := copy(p[n:], r.Unit[off:])
+			n += c
+			r.pos += int64(c)
+		default:
+			off := r.pos - int64(len(r.Prefix)) - int64(len(r.Unit))*int64(r.Count)
+			c := copy(p[n:], r.Suffix[off:])
+			n += c
+			r.pos += int64(c)
+		}
+	}
+	return n, nil
+}
+
+func (r *RepeatSource) Consumed() int64 { return r.pos }
